@@ -562,13 +562,29 @@ func (rp *replayer) closeMgr(viaStop bool) {
 		}
 		c, p, _, _ := rp.v.Snapshot()
 		var expect []*memHandle
+		pooled := 0
 		for _, e := range append(c, p...) {
 			if e.Readers == 0 {
 				expect = append(expect, handleOf(e.F))
+				pooled += e.Pooled
 			}
 		}
+		readerCloses := func() int { // Close calls on reader handles so far
+			rp.m.mu.Lock()
+			defer rp.m.mu.Unlock()
+			k := 0
+			for _, h := range rp.m.handles {
+				if !h.stated {
+					k += int(h.closes.Load())
+				}
+			}
+			return k
+		}
+		base := readerCloses()
 		rp.stopUsed = true
 		close(rp.stop)
+		// the cleaner goroutine closes the manager and then releases the collected files on its own:
+		// wait until every main handle it must close and every handle pooled in those files is closed
 		ok := waitFor(func() bool {
 			_, _, cl, _ := rp.v.Snapshot()
 			if !cl {
@@ -579,7 +595,7 @@ func (rp *replayer) closeMgr(viaStop bool) {
 					return false
 				}
 			}
-			return true
+			return readerCloses() >= base+pooled
 		})
 		if !ok {
 			rp.stuck = true
